@@ -295,7 +295,9 @@ func (fc *funcContext) translateExpr(expr ast.Expr) *expression {
 				return fc.formatExpr("new %1s(-%2h, -%2l)", fc.typeName(t), e.X)
 			case isComplex(basic):
 				return fc.formatExpr("new %1s(-%2r, -%2i)", fc.typeName(t), e.X)
-			case isUnsigned(basic):
+			case isInteger(basic):
+				// Negating the most negative value wraps around; this also
+				// normalises the negative zero JavaScript produces for -0.
 				return fc.fixNumber(fc.formatExpr("-%e", e.X), basic)
 			default:
 				return fc.formatExpr("-%e", e.X)
